@@ -97,6 +97,14 @@ CLAIMED['C13']['text'] = ('Bounded symbolic execution of getEntriesInRange / ite
 CLAIMED['C13']['note'] = ('Trusted: go/ssa lowering, wesym, contracts for cid/ipfs-log entries and the log accessors, z3. Outside: longer lists, MessageStore.ListEvents '
     '(same two lines; needs the message pipeline), the RPC relay with until_now, OrbitDB replication itself.')
 
+CLAIMED['C12'] = dict(
+    text='Symbolic execution of Group.IsValid / GroupJoin / checkIfInGroup / handleGroupJoined with the invitation a FREE Group value for a group whose key is '
+         'honest (EUF-CMA), every single-field tamper of a valid invitation, and FilterGroupForReplication / link key / defaultACForGroup / openGroupEnvelope / '
+         'OpenEnvelopeHeaders for the replication descriptor; the identity-in-group clause is decided inside the C11 check. Found the missing group-type '
+         'check (fixed).',
+    note=TA + 'JSON/CID of the access map by injective contract; an invitation whose Secret is the (publicly signed) link key is excluded from the tamper harness and documented in DESIGN C12.',
+    design='6/C12')
+
 NOT_APPLICABLE = {}
 ALL = ['C%02d' % i for i in range(1, 21)]
 PENDING_REASON = 'no solver-based check registered yet for this property in the current state of /verif (see DESIGN.md section 9)'
